@@ -33,3 +33,9 @@ func regoStrings(values []string) string {
 	}
 	return strings.Join(acc, ",")
 }
+
+// queryingPathComment renders the comment line announcing the path being queried. The path grammar accepts line
+// breaks as whitespace, a line break in the source of the path must not end the comment.
+func queryingPathComment(source string) string {
+	return "#  querying path: " + strings.NewReplacer("\n", " ", "\r", " ").Replace(source)
+}
